@@ -165,6 +165,11 @@ func ruleSortAfterInsert(c *Ctx, rule string) {
 			if t.Op == "call" && t.S == "builtin:append" {
 				return base, "append:" + a.FChildren, true
 			}
+			// any other new value of the list must be an order-preserving derivation of the old one (a sub-sequence):
+			// a removal that moves elements (swap-remove) breaks the kind order just like an insertion
+			if !orderPreserving(val, base+"."+a.FChildren, 0) {
+				return base, "reorder:" + a.FChildren, true
+			}
 			return "", "", false
 		},
 		IsB: func(f *ssa.Function, in ssa.Instruction) (string, bool) {
@@ -181,7 +186,7 @@ func ruleSortAfterInsert(c *Ctx, rule string) {
 	}
 	sites := c.RunPair(spec)
 	c.reportPair(rule, sites, func(s *pairSite) string {
-		return "a child is appended to " + s.x + " and a successful return is reachable without a stable sort of its children by priority(a) − priority(b): a parameter child can precede a literal one"
+		return "the child list of " + s.x + " is extended or rearranged (" + s.what + ") and a successful return is reachable without a stable sort of its children by priority(a) − priority(b): a parameter child can precede a literal one"
 	})
 	// the comparator itself
 	n := 0
@@ -300,3 +305,80 @@ func isPlusOne(v ssa.Value, phi *ssa.Phi) bool {
 }
 
 var _ = types.Typ
+
+
+// orderPreserving: v is a sub-sequence (same relative order) of the list with access path src: the list itself, a
+// sub-slice, nil / a fresh empty slice, slices.Delete / DeleteFunc / Clone / Clip / Grow of such a value, or the result
+// of a module function that returns only such derivations of the parameter receiving it and never stores into its
+// elements.
+func orderPreserving(v ssa.Value, src string, depth int) bool {
+	if depth > 4 {
+		return false
+	}
+	if an.AP(v) == src {
+		return true
+	}
+	switch x := v.(type) {
+	case *ssa.Const:
+		return x.Value == nil
+	case *ssa.MakeSlice:
+		return true
+	case *ssa.Slice:
+		return orderPreserving(x.X, src, depth+1)
+	case *ssa.ChangeType:
+		return orderPreserving(x.X, src, depth+1)
+	case *ssa.Phi:
+		for _, e := range x.Edges {
+			if !orderPreserving(e, src, depth+1) {
+				return false
+			}
+		}
+		return true
+	case *ssa.Call:
+		switch an.CalleeName(&x.Call) {
+		case "slices.Delete", "slices.DeleteFunc", "slices.Clone", "slices.Clip", "slices.Grow", "slices.Compact", "slices.CompactFunc":
+			return len(x.Call.Args) > 0 && orderPreserving(x.Call.Args[0], src, depth+1)
+		}
+		g := an.StaticCallee(&x.Call)
+		if g == nil || !an.InModule(g) || len(g.Blocks) == 0 {
+			return false
+		}
+		args := an.CallArgs(&x.Call)
+		for pi, par := range g.Params {
+			if pi >= len(args) || !orderPreserving(args[pi], src, depth+1) {
+				continue
+			}
+			if _, isSlice := par.Type().Underlying().(*types.Slice); !isSlice {
+				continue
+			}
+			pap := an.AP(par)
+			ok := true
+			an.AllInstrs(g, func(in ssa.Instruction) {
+				if st, isStore := in.(*ssa.Store); isStore {
+					if ia, isIA := st.Addr.(*ssa.IndexAddr); isIA && an.AP(ia.X) == pap {
+						ok = false // writes an element in place
+					}
+				}
+				if call := an.CallOf(in); call != nil && len(call.Args) > 0 && an.AP(call.Args[0]) == pap {
+					switch an.CalleeName(call) {
+					case "slices.SortStableFunc", "slices.SortFunc", "slices.Sort", "slices.Reverse", "slices.Insert", "sort.Slice", "sort.SliceStable", "builtin:copy":
+						ok = false
+					}
+					if b, isB := call.Value.(*ssa.Builtin); isB && b.Name() == "copy" {
+						ok = false
+					}
+				}
+			})
+			for _, r := range an.Returns(g) {
+				for _, res := range r.Results {
+					if _, isSlice := res.Type().Underlying().(*types.Slice); isSlice && !orderPreserving(res, pap, depth+1) {
+						ok = false
+					}
+				}
+			}
+			return ok
+		}
+		return false
+	}
+	return false
+}
